@@ -2197,3 +2197,70 @@ def replay_c12_finalexp(args):
     if pm.exp_by_p(FQ12.zero()) != FQ12.zero():
         bad.append(("exp_by_p(0)",))
     return (len(bad) > 0), "c12_finalexp: %s" % bad[:3]
+
+
+def replay_c20_purity(args):
+    """concrete frame monitor over the public API on the real code: state before == state after, arguments unchanged,
+    a second call gives an equal result, also after interleaving other calls."""
+    from checks import statefp
+    import py_ecc
+    from py_ecc import bn128, bls12_381, optimized_bn128, optimized_bls12_381, secp256k1
+    from py_ecc import bls
+    import hashlib
+    from py_ecc.bls import hash as H, hash_to_curve as h2c, point_compression as pc, g2_primitives as g2p
+    bad = []
+    base = statefp.state_fp()
+    S = bls.G2ProofOfPossession
+    ob = optimized_bls12_381
+    sk = 12345
+    pk = S.SkToPk(sk)
+    sig = S.Sign(sk, b"m")
+    pairs = sorted([(pk, b"m", sk), (S.SkToPk(7), b"n", 7), (S.SkToPk(9), b"o", 9)], reverse=True)      # descending: an in-place sort would be visible
+    keys, msgs = [p_[0] for p_ in pairs], [p_[1] for p_ in pairs]
+    agg = S.Aggregate([S.Sign(p_[2], p_[1]) for p_ in pairs])
+    calls = []
+    for m in (bn128, bls12_381, optimized_bn128, optimized_bls12_381):
+        calls += [(m.__name__ + ".add", lambda m=m: m.add(m.G1, m.multiply(m.G1, 2))), (m.__name__ + ".multiply", lambda m=m: m.multiply(m.G2, 9)),
+                  (m.__name__ + ".twist", lambda m=m: m.twist(m.G2)), (m.__name__ + ".neg", lambda m=m: m.neg(m.G1)), (m.__name__ + ".double", lambda m=m: m.double(m.G2)),
+                  (m.__name__ + ".FQ12 ops", lambda m=m: (m.FQ12([1, 2] + [0] * 10) * m.FQ12([3] * 12)).inv() ** 5),
+                  (m.__name__ + ".FQ2 ops", lambda m=m: (-(m.FQ2([1, 2]) / m.FQ2([3, 4])), m.FQ2([5, 6]) ** 9, m.FQ(3) / m.FQ(7)))]
+    calls += [("optimized pairing", lambda: ob.pairing(ob.G2, ob.G1)), ("final_exponentiate", lambda: ob.final_exponentiate(ob.FQ12([2] * 12))),
+              ("hash_to_G2", lambda: h2c.hash_to_G2(b"msg", b"DST", hashlib.sha256)), ("hash_to_G1", lambda: h2c.hash_to_G1(b"msg", b"DST", hashlib.sha256)),
+              ("expand_message_xmd", lambda: H.expand_message_xmd(b"m", b"d", 77, hashlib.sha256)), ("hkdf", lambda: bytes(H.hkdf_expand(H.hkdf_extract(b"s", b"i"), b"x", 70))),
+              ("compress/decompress", lambda: (pc.decompress_G1(pc.compress_G1(ob.G1)), pc.decompress_G2(pc.compress_G2(ob.G2)))),
+              ("KeyGen", lambda: S.KeyGen(b"\x01" * 32)), ("SkToPk", lambda: S.SkToPk(sk)), ("Sign", lambda: S.Sign(sk, b"m")), ("Verify", lambda: S.Verify(pk, b"m", sig)),
+              ("AggregateVerify", lambda: S.AggregateVerify(keys, msgs, agg)), ("FastAggregateVerify", lambda: S.FastAggregateVerify(keys, b"m", agg)),
+              ("Aggregate", lambda: S.Aggregate([sig, sig])), ("PopProve/PopVerify", lambda: S.PopVerify(pk, S.PopProve(sk))),
+              ("G2Basic", lambda: bls.G2Basic.Verify(bls.G2Basic.SkToPk(5), b"x", bls.G2Basic.Sign(5, b"x"))),
+              ("G2MessageAugmentation", lambda: bls.G2MessageAugmentation.AggregateVerify(keys, msgs, agg)),
+              ("secp256k1", lambda: (secp256k1.privtopub(b"\x05" * 32), secp256k1.ecdsa_raw_recover(b"\x01" * 32, secp256k1.ecdsa_raw_sign(b"\x01" * 32, b"\x05" * 32)),
+                                      secp256k1.multiply(secp256k1.G, -3), secp256k1.add(secp256k1.G, secp256k1.G))),
+              ("swu/iso", lambda: (ob.optimized_swu_G2(ob.FQ2([1, 2])), ob.iso_map_G1(ob.FQ(1), ob.FQ(2), ob.FQ(3))))]
+    first = {}
+    for name, th in calls:
+        k0, m0 = list(keys), list(msgs)
+        before = statefp.state_fp()
+        try:
+            r = th()
+        except Exception as e:
+            r = ("raised", repr(e)[:60])
+        after = statefp.state_fp()
+        d = statefp.diff(before, after)
+        if d:
+            bad.append((name, "module state changed", d[:2]))
+        if keys != k0 or msgs != m0:
+            bad.append((name, "argument lists mutated"))
+        first[name] = statefp._val(r)
+    # history independence: second round in reverse order
+    for name, th in reversed(calls):
+        try:
+            r = th()
+        except Exception as e:
+            r = ("raised", repr(e)[:60])
+        v = statefp._val(r)
+        if repr(v) != repr(first[name]):
+            bad.append((name, "result differs on a later call"))
+    d = statefp.diff(base, statefp.state_fp())
+    if d:
+        bad.append(("final", "state differs from the post-import snapshot", d[:3]))
+    return (len(bad) > 0), "c20_purity: %d findings %s" % (len(bad), str(bad[:3])[:300])
